@@ -77,7 +77,7 @@ def mc_file(wd, prop, tier):
             if not r["violated"] or inv not in r["violated"]:
                 raise Broken("quirk %s does not violate %s in the specification: %s" % (q, inv, r["violated"]))
         # unbounded in the number of processes, pages and sessions: the safety invariants by proof (TLAPS)
-        quirk_results["tlaps_obligations_proved(WhisperFile_proofs: Spec => [](NoLostUpdate /\\ Mutex /\\ LockLifetime /\\ SyncedEqualsView /\\ CleanPagesFresh))"] = run_tlapm(wd, "WhisperFile_proofs", "wf")
+        quirk_results["tlaps_obligations_proved(WhisperFile_proofs: Spec => [](NoLostUpdate /\\ Mutex /\\ LockLifetime /\\ ReaderUniform /\\ SyncedEqualsView /\\ CleanPagesFresh))"] = run_tlapm(wd, "WhisperFile_proofs", "wf")
     return states, trans, runs, quirk_results
 
 
